@@ -198,9 +198,12 @@ func (r *generateReader) ReadByte() (byte, error) {
 		fmt.Fprintf(&r.mod, mod, r.cur+offset)
 		return r.mod.ReadByte()
 	default:
-		if r.escape { // Pretty useless here
+		if r.escape {
+			// Not one of our own escapes (\\ and \$): hand the backslash
+			// and the escaped character through to the zone parser.
 			r.escape = false
-			return r.ReadByte()
+			r.si--
+			return '\\', nil
 		}
 
 		return r.s[si], nil
